@@ -107,6 +107,17 @@ func runSTLMesh(src *choice.Source, st *Stats) (fs []Finding) {
 			fs = append(fs, *f)
 		}
 	}
+	if len(fs) == 0 {
+		// the same file inside a container: a seekable stream positioned at its start
+		sr := positioned(src, w.Buf)
+		got, err := model3d.ReadSTL(sr)
+		if err != nil {
+			fs = append(fs, Finding{"stl_mesh|positioned-read-error", fmt.Sprintf("seekable stream positioned at offset %d of %d: %v", len(sr.Data)-len(w.Buf), len(sr.Data), err)})
+		} else if f := compareTris("stl_mesh|positioned", tris, got, round32); f != nil {
+			f.Msg = fmt.Sprintf("seekable stream positioned at offset %d: %s", len(sr.Data)-len(w.Buf), f.Msg)
+			fs = append(fs, *f)
+		}
+	}
 	return
 }
 
@@ -404,6 +415,15 @@ func runPLYMesh(src *choice.Source, st *Stats) (fs []Finding) {
 			}
 		}
 	}
+	if len(fs) == 0 {
+		sr := positioned(src, w.Buf)
+		got, _, err := model3d.ReadColorPLY(sr)
+		if err != nil {
+			fs = append(fs, Finding{"ply_mesh|positioned-read-error", fmt.Sprintf("seekable stream positioned at offset %d of %d: %v", len(sr.Data)-len(w.Buf), len(sr.Data), err)})
+		} else if f := compareTrisEq("ply_mesh|positioned", tris, got, round32, numEq); f != nil {
+			fs = append(fs, *f)
+		}
+	}
 	return
 }
 
@@ -591,6 +611,15 @@ func runOFF(src *choice.Source, st *Stats) (fs []Finding) {
 		}
 		if f := compareTris("off_text|styled", want, got, func(c model3d.Coord3D) model3d.Coord3D { return c }); f != nil {
 			f.Msg = fmt.Sprintf("delivery %+v: %s", d, f.Msg)
+			fs = append(fs, *f)
+		}
+	}
+	if len(fs) == 0 {
+		sr := positioned(src, data)
+		got, err := model3d.ReadOFF(sr)
+		if err != nil {
+			fs = append(fs, Finding{"off_text|positioned-read-error", fmt.Sprintf("seekable stream positioned at offset %d of %d: %v", len(sr.Data)-len(data), len(sr.Data), err)})
+		} else if f := compareTris("off_text|positioned", want, got, func(c model3d.Coord3D) model3d.Coord3D { return c }); f != nil {
 			fs = append(fs, *f)
 		}
 	}
